@@ -15,7 +15,7 @@ SECS = ["s1", "s2", "Sec 3", "x", "S"]
 KEYS = ["a", "b", "key c", "d", "E"]
 NOOBJ = 99
 LONG = ["L" * 300, "x" * 1100 + " y", "seg " * 600, "k" * 2500]
-VALS = LONG + ["", "v", "hello world", " padded ", "a=b", "# not a comment", "\"q\"", "[x]", "1", "true", "0x10", "multi\nline", "tab\there", "Yes Please"]
+VALS = LONG + ["\"quoted text\"", "\"\"", "\"", "'single'", "\"a\" and \"b\"", "caf\xe9", "", "v", "hello world", " padded ", "a=b", "# not a comment", "\"q\"", "[x]", "1", "true", "0x10", "multi\nline", "tab\there", "Yes Please"]
 
 
 def spell(rng, s):
@@ -32,6 +32,8 @@ def gen_world(rng, i, tier):
         for s in [None] + rng.subset(SECS, 0, 3):
             for k in rng.subset([k for k in KEYS if " " not in k], 0 if s is None else 1, 4):
                 ents.append([s, k, "p%d" % len(ents) if rng.chance(0.85) else None])     # None: "key=" - an entry without text
+                if ents[-1][2] is not None and rng.chance(0.25):
+                    ents[-1] = [s, k, rng.pick(["q%d", " q%d ", "q # %d", "q = %d"]) % len(ents), "q"]     # written in double quotes in the file
                 if rng.chance(0.15):
                     ents.append([s, k, "dup%d" % len(ents)])      # duplicate key: lookups see the first
         w["file"] = ents
@@ -138,7 +140,7 @@ def build_plans(world):
     elif c == "newOpts":
         ops.append({"op": "newOpts", "o": 0, "options": None})
     else:
-        tree.append({"t": "f", "p": "$ROOT/in.conf", "c": render_plain([(e[0], e[1], "" if e[2] is None else e[2]) for e in world.get("file", [])])})
+        tree.append({"t": "f", "p": "$ROOT/in.conf", "c": render_plain([(e[0], e[1], "" if e[2] is None else ('"%s"' % e[2] if len(e) > 3 else e[2])) for e in world.get("file", [])])})
         ops.append({"op": "readFile", "o": 0, "path": "$ROOT/in.conf", "delim": "=", "comment": "#"})
     for a in world["ops"]:
         ops.append(dict(to_exec(a), tag="h"))
@@ -249,7 +251,7 @@ def check(world, plans, results):
                         v.fail("getdef:value", "%s: present key: expected %r, got rc=%r value=%r" % (where, e[2], r["rc"], r.get("v")))
                 elif r["rc"] == 0:
                     # a present key never yields the default by accident: compare with the stored text where that is unambiguous
-                    if ty in ("Int", "Int64", "UInt", "UInt64") and e[2].lstrip("-").isdigit() and not (len(e[2].lstrip("-")) > 1 and e[2].lstrip("-")[0] == "0"):
+                    if ty in ("Int", "Int64", "UInt", "UInt64") and isinstance(e[2], str) and e[2].lstrip("-").isdigit() and not (len(e[2].lstrip("-")) > 1 and e[2].lstrip("-")[0] == "0"):
                         val = int(e[2])
                         lim = {"Int": (-2**31, 2**31 - 1), "Int64": (-2**63, 2**63 - 1), "UInt": (0, 2**32 - 1), "UInt64": (0, 2**64 - 1)}[ty]
                         if lim[0] <= val <= lim[1] and r.get("v") != val:
